@@ -21,6 +21,34 @@ pub fn operation_texts(arts: &[(String, String)]) -> Vec<(String, Result<String,
         .collect()
 }
 
+/// the literal with its first field argument given twice (`f(x: v)` -> `f(x: v, x: v)`), if it has one
+pub fn duplicate_first_argument(lit: &str) -> Option<String> {
+    let body = lit.find('{')?;
+    let open = body + lit[body..].find('(')?;
+    let b = lit.as_bytes();
+    let (mut depth, mut in_str, mut i) = (0i32, false, open + 1);
+    while i < b.len() {
+        match b[i] {
+            b'\\' if in_str => i += 1,
+            b'"' => in_str = !in_str,
+            b'{' | b'[' | b'(' if !in_str => depth += 1,
+            b'}' | b']' if !in_str => depth -= 1,
+            b')' | b',' if !in_str && depth == 0 => break,
+            b')' if !in_str => depth -= 1,
+            _ => {}
+        }
+        i += 1;
+    }
+    if i >= b.len() {
+        return None;
+    }
+    let arg = lit[open + 1..i].trim();
+    if !arg.contains(':') {
+        return None;
+    }
+    Some(format!("{}, {}{}", &lit[..i], arg, &lit[i..]))
+}
+
 pub fn check(arts: &[(String, String)], schema: &Schema, literals: &str) -> Vec<(String, String)> {
     let mut fails = vec![];
     for (path, text) in operation_texts(arts) {
@@ -63,7 +91,33 @@ fn oracle(ctx: &Ctx<'_>, stats: &mut ShardStats) -> Vec<(String, String)> {
             let lits = ctx.program.literals().iter().map(|l| l.1.clone()).collect::<Vec<_>>().join("\n");
             let n = operation_texts(arts).len() as u64;
             *stats.extra.entry("operations_validated".into()).or_default() += n;
-            SCHEMA_MODEL.with(|s| check(arts, s, &lits))
+            let mut fails = SCHEMA_MODEL.with(|s| check(arts, s, &lits));
+            // the same program with the first argument of each literal given twice: if the compiler accepts it,
+            // it is an accepted program like any other and its operations must be valid GraphQL
+            let all = ctx.program.literals();
+            for (i, (_, lit)) in all.iter().enumerate() {
+                let Some(dup) = duplicate_first_argument(lit) else { continue };
+                let mut variant = all.clone();
+                variant[i].1 = dup;
+                let refs: Vec<(Option<&str>, String)> = variant.iter().map(|(e, l)| (e.as_deref(), l.clone())).collect();
+                let mut p = ctx.program.project();
+                p.files = vec![("a.ts".to_string(), crate::project::source_file(&refs))];
+                let vdir = ctx.dir.with_file_name("dup-arg-variant");
+                p.write_to(&vdir);
+                *stats.extra.entry("duplicate_argument_variants".into()).or_default() += 1;
+                if let Compiled::Ok(varts) = crate::driver::compile_dir(&vdir) {
+                    *stats.extra.entry("duplicate_argument_variants_accepted".into()).or_default() += 1;
+                    let vl = variant.iter().map(|l| l.1.clone()).collect::<Vec<_>>().join("\n");
+                    for (sig, what) in SCHEMA_MODEL.with(|s| check(&varts, s, &vl)) {
+                        if sig.starts_with("duplicate-argument") {
+                            fails.push((sig, format!("[variant with an argument given twice, accepted by the compiler] {what}")));
+                        }
+                    }
+                }
+                let _ = std::fs::remove_dir_all(&vdir);
+                break; // one variant per program
+            }
+            fails
         }
         _ => vec![],
     }
